@@ -22,7 +22,9 @@ def diag_keys(diags, text, lx):
     for d in diags or []:
         off = T.offset(d["range"]["start"]["line"], d["range"]["start"]["character"])
         end = T.offset(d["range"]["end"]["line"], d["range"]["end"]["character"])
-        i = bisect.bisect_right(starts, off) - 1
+        # culprit = first non-comment token at or after the start of the range (a range may start at comments in front of its construct);
+        # an empty range sits at the end of the token before it
+        i = bisect.bisect_right(starts, max(off - 1, 0)) - 1 if off == end else bisect.bisect_left(starts, off)
         out.append((d["message"].strip(), i, "empty" if off == end else "span"))
     return sorted(out)
 
@@ -79,7 +81,7 @@ def worker(args):
 
 def run(ctx):
     server_bin("rel")
-    nprog = 120 if ctx.quick else 3000
+    nprog = 350 if ctx.quick else 3000
     for p in pmap(worker, [("%s/%d" % (ctx.seed, i), nprog) for i in range(NCPU)]): ctx.merge(p)
     ctx.rule = ("syntactically valid generated programs (well-typed and ill-typed), all layouts incl. CRLF, comments in leading positions, literal corner cases (007, 0x0a, ''', '\\n', 2^32-1, "
                 "overflowing literals), insertSpaces x tabSize 0..8: one whole-document edit; non-comment token sequence (kind, literal value) unchanged; same diagnostics (message, culprit token) "
